@@ -18,6 +18,9 @@
        remembered; a low surrogate \uDC00..\uDFFF is combined with the most recent high surrogate
        of the same string, adjacent or not (with U+D800 when there was none);
      - without ARDUINOJSON_DECODE_UNICODE the two characters \u are copied verbatim.
+   and the one limit of the reader that does not depend on the allocator: a string or key
+   denotes at most 65535 bytes (StringNode::maxLength; [string_fits] of Spec/Rfc8259.v) — a longer one
+   is read to its end and refused with NoMemory.
 
    Nothing here refers to the parsing routines: only the character classes
    (can_be_in_number, can_be_in_non_quoted_string, is_space), parse_number / jv_of_number for the
@@ -78,14 +81,14 @@ Section Dialect.
       dchars q hi (tu ++ t) (utf8_encode (pair_codepoint (0xD800 + hi) l) ++ o).
 
   Definition dstring (t : bytes) (s : bytes) : Prop :=
-    exists q body, (q = 34 \/ q = 39) /\ t = [q] ++ body ++ [q] /\ dchars q 0 body s.
+    exists q body, (q = 34 \/ q = 39) /\ t = [q] ++ body ++ [q] /\ dchars q 0 body s /\ string_fits s.
 
   (* ---- object keys ---------------------------------------------------------------------- *)
   (* canBeInNonQuotedString (JsonDeserializer.hpp): '0'..'9', '_'..'z' (this range contains the
      backquote), 'A'..'Z'.  An unquoted key denotes its own bytes. *)
   Definition dkey (t : bytes) (s : bytes) : Prop :=
     dstring t s \/
-    (t <> [] /\ Forall (fun c => can_be_in_non_quoted_string c = true) t /\ s = t).
+    (t <> [] /\ Forall (fun c => can_be_in_non_quoted_string c = true) t /\ s = t /\ string_fits s).
 
   (* ---- numbers -------------------------------------------------------------------------- *)
   (* A token of 1..63 number characters (canBeInNumber: digits + - . and e E, or every letter
